@@ -83,6 +83,31 @@ pub(super) fn extract_variables_from_expr(expr: &Expression, vars: &mut HashSet<
                 extract_variables_from_expr(&pair.value, vars);
             }
         }
+        Expression::Case(case) => {
+            if let Some(test) = &case.expression {
+                extract_variables_from_expr(test, vars);
+            }
+            for (when, then) in &case.when_clauses {
+                extract_variables_from_expr(when, vars);
+                extract_variables_from_expr(then, vars);
+            }
+            if let Some(otherwise) = &case.else_expression {
+                extract_variables_from_expr(otherwise, vars);
+            }
+        }
+        Expression::ListComprehension(comp) => {
+            extract_variables_from_expr(&comp.list, vars);
+            // The comprehension variable is bound inside WHERE and the projection only.
+            let mut scoped = HashSet::new();
+            if let Some(where_expr) = &comp.where_expression {
+                extract_variables_from_expr(where_expr, &mut scoped);
+            }
+            if let Some(map_expr) = &comp.map_expression {
+                extract_variables_from_expr(map_expr, &mut scoped);
+            }
+            scoped.remove(&comp.variable);
+            vars.extend(scoped);
+        }
         _ => {}
     }
 }
